@@ -805,3 +805,52 @@ mutant('RN-stream-new-windows-crossed', ['C03', 'C02'], ['RN|stream-new|inc_wind
         (S + 'stream.rs', '''        send_flow
             .inc_window(init_send_window)''', '''        recv_flow
             .inc_window(init_send_window)''')])
+
+# ---------------------------------------------------------------- predicate census (RP), guard outcomes (RG polarity), flag tables
+mutant('RP-C19-is-released-ref-count-inverted', ['C19'], ['C19.RP|predicate|stream::Stream::is_released'],
+       'Stream::is_released holds while handles still exist',
+       [(S + 'stream.rs', '''            self.ref_count == 0 &&
+            // The stream is not in any queue''', '''            self.ref_count != 0 &&
+            // The stream is not in any queue''')])
+mutant('RP-C05-has-streams-and', ['C05', 'C19'], ['RP|predicate|counts::Counts::has_streams'],
+       'Counts::has_streams requires streams in both directions',
+       [(S + 'counts.rs', 'self.num_send_streams != 0 || self.num_recv_streams != 0', 'self.num_send_streams != 0 && self.num_recv_streams != 0')])
+mutant('RP-C02-has-unavailable-boundary', ['C02', 'C16'], ['RP|predicate|flow_control::FlowControl::has_unavailable'],
+       'has_unavailable is true when window == available',
+       [(S + 'flow_control.rs', 'self.window_size > self.available', 'self.window_size >= self.available')])
+mutant('RG-C14-settings-length-test-inverted', ['C14', 'C12'], ['RG|guard|frame::settings::Settings::load|err'],
+       'Settings::load rejects payloads whose length IS a multiple of six',
+       [('src/frame/settings.rs', 'if payload.len() % 6 != 0 {', 'if payload.len() % 6 == 0 {')])
+mutant('RG-C09-window-update-zero-test-inverted', ['C09', 'C12'], ['RG|guard|frame::window_update::WindowUpdate::load|err'],
+       'WINDOW_UPDATE with a non-zero increment is rejected, zero is accepted',
+       [('src/frame/window_update.rs', 'if size_increment == 0 {', 'if size_increment != 0 {')])
+mutant('R11-C12-end-headers-predicate-inverted', ['C12', 'C09'], ['flag|HeadersFlag::is_end_headers'],
+       'HeadersFlag::is_end_headers is inverted',
+       [('src/frame/headers.rs', '''    pub fn is_end_headers(&self) -> bool {
+        self.0 & END_HEADERS == END_HEADERS
+    }
+
+    pub fn set_end_headers(&mut self) {
+        self.0 |= END_HEADERS;
+    }
+
+    pub fn is_padded(&self) -> bool {
+        self.0 & PADDED == PADDED
+    }
+
+    pub fn is_priority''', '''    pub fn is_end_headers(&self) -> bool {
+        self.0 & END_HEADERS != END_HEADERS
+    }
+
+    pub fn set_end_headers(&mut self) {
+        self.0 |= END_HEADERS;
+    }
+
+    pub fn is_padded(&self) -> bool {
+        self.0 & PADDED == PADDED
+    }
+
+    pub fn is_priority''')])
+mutant('R9-C04-server-initiated-parity', ['C04', 'C09'], ['stream-id|is_server_initiated'],
+       'StreamId::is_server_initiated accepts odd identifiers',
+       [('src/frame/stream_id.rs', 'id != 0 && id % 2 == 0', 'id != 0 && id % 2 != 0')])
